@@ -835,8 +835,9 @@ def _chunks(cases, n):
 
 def run(ctx):
     ctx.rule("grid_steps: every (M, dt) with dt in the dt alphabet and M written as k*dt, k/den, decimal literal and "
-             "(k-1/2)*dt for k = 1..K (equal floats kept once).  Own simulate(): all pairs x n_paths=2 for the vectorised "
-             "primaries (k <= Kslow for the four primaries that loop over the steps in python), all pairs x n_paths in {1,2} "
+             "(k-1/2)*dt for k = 1..K (equal floats kept once).  Own simulate(): n_paths=2 on k <= Kslow plus every "
+             "rounding-sensitive pair for the vectorised primaries (thorough: all pairs; k <= Kslow for the four primaries that "
+             "loop over the steps in python), all pairs x n_paths in {1,2} "
              "for BrownianStock, k <= Ksmall x n_paths=1 for the others (all pairs in thorough for vectorised ones); "
              "through each of the 6 derivative classes and a two-underlier derivative: all pairs on BrownianStock, k <= Ksmall on the other 7 primaries "
              "(all pairs in thorough for the vectorised ones); float32 BrownianStock on all pairs.  Non-trivial = pairs whose "
@@ -880,8 +881,11 @@ def run(ctx):
                 cases = all_pairs
             elif n_paths == 1:
                 cases = small_pairs
-            else:
-                cases = slow_pairs if kind in SLOW else all_pairs
+            elif kind in SLOW:
+                cases = slow_pairs
+            else:   # vectorised primaries, quick: k <= Kslow plus every rounding-sensitive pair up to K
+                cases = [c for c in all_pairs if c[3] <= Kslow or
+                         (R.expected_points(c[0], c[1])[1] == "integer" and c[0] / c[1] != c[3])]
             for ch in _chunks(cases, 400):
                 blocks.append(("grid_steps", {"primary": kind, "route": "own", "n_paths": n_paths, "cases": ch}))
     # through every derivative class
@@ -995,7 +999,8 @@ def run(ctx):
         for dts3, M, kindB in ([(1 / 250, 1 / 365, 0.01), 12 / 365, "heston"], [(0.1, 0.25, 0.01), 0.6, "merton"]):
             if ctx.quick and route != "european" and kindB == "merton":
                 continue
-            for ch in _chunks(shist, 64):
+            hs_ = shist if route == "european" else [h for h in shist if len(h) <= 3]
+            for ch in _chunks(hs_, 64):
                 blocks.append(("swap", {"route": route, "M": M, "dts": list(dts3), "kindB": kindB, "dtype": "float64",
                                         "histories": ch}))
 
